@@ -689,6 +689,200 @@ def s_raising(ctx, sc, results):
                 ctx.count('S:raising:value-equals-fresh-cache')
 
 
+def s_fresh(ctx, sc, results):
+    """the very first evaluation on a fresh cache (histories of length 1): an inside point must already satisfy the
+    interpolation clauses — node / multilinear exactness or the h^2 bound — whatever its coordinates (origin, exact
+    zeros, repeated coordinates)"""
+    fn = Fn(sc['fn'])
+    if fn.nan is not None:
+        return
+    dim = sc['dim']
+    H = [spec_spacing(sc, d) for d in range(dim)]
+    lim = 1e-9 * scale_of(sc) + (0.0 if fn.multilinear() else sum(H[d] ** 2 * fn.m2(d) for d in range(dim)))
+    for order, out in results:
+        if len(order) != 1:
+            continue
+        st, v, calls = out[0]
+        p = sc['points'][order[0]]
+        if st != 'val' or classify(sc, p) != 'inside':
+            continue
+        ctx.case(key=('fresh', dim, tuple(f2b(x) for x in p)))
+        if not abs(v - fn(*p)) <= lim:
+            ctx.fail(fail_sig(sc, 'first-evaluation-wrong'),
+                     'fresh cache, first evaluation at %r: %r, wrapped function %r (allowed deviation %.3e); area %r resolution %r'
+                     % (p, v, fn(*p), lim, sc['area'], sc['res']),
+                     dict(check='history', scenario=_short(sc), point=p, orders=[list(order), list(order)]))
+            return
+        ctx.count('S:first-evaluation-ok')
+
+
+def fresh_stream(ctx, drv):
+    """first evaluations on fresh caches at points with exact-zero / repeated coordinates: origin, -0.0, points on the
+    axes, the diagonal, the same point twice in a row, a first call outside the area; areas that contain the origin,
+    touch it with a corner, or exclude it; raise mode and pass-through mode"""
+    rng = ctx.rng
+    for dim in (1, 2, 3):
+        geos = [[-1.0, 1.0], [0.0, 1.0], [0.5, 2.0]]
+        if dim == 3 and ctx.tier == 'quick':
+            geos = [geos[0], geos[2]]
+        for g in geos:
+            for nbe in (False, True):
+                area = g * dim
+                res = [rng.choice([0.5, 0.37, 0.25]) for _ in range(dim)]
+                kind = rng.choice(['smooth', 'multilinear'])
+                fn = rnd_fn(rng, dim, area, kind)
+                fn['c'] = [0.31, -0.27, 0.43][:dim] + [0.0] * (3 - dim)     # f(0,..,0) is neither 0 nor special
+                fn['m'][0] = rng.choice([-1, 1]) * rng.uniform(1.0, 2.0)
+                t = rng.uniform(0.55, 0.95)
+                cand = [tuple([0.0] * dim), tuple([-0.0] * dim), tuple([t] * dim), tuple([1.0] * dim),
+                        tuple(rng.uniform(g[0], g[1]) for _ in range(dim)),                       # generic inside
+                        tuple([g[1] + 1.5] * dim), tuple([g[0] - 1.5] + [0.0] * (dim - 1))]      # outside
+                for a in range(dim):
+                    cand.append(tuple(t if d == a else 0.0 for d in range(dim)))                  # on an axis
+                pts = [tuple(float(x) for x in q) for q in dict.fromkeys(cand)]
+                sc = dict(dim=dim, area=area, res=res, nbe=nbe, bounds=rng.choice([None, (-3.0, 20.0)]), fn=fn, points=pts)
+                gen = 4                                                      # index of the generic inside point
+                orders = [[i] for i in range(len(pts))] + [[i, i] for i in range(len(pts))] + \
+                         [[gen, i] for i in range(len(pts)) if i != gen] + [[i, gen, i] for i in (0, 5)]
+                if dim == 3:
+                    orders = [o for k, o in enumerate(orders) if k % 2 == 0 or o in ([0], [1], [0, 0], [5], [gen, 0])]
+                run_scenario(ctx, drv, sc, 0, orders=orders)
+
+
+def two_instance_stream(ctx, n):
+    """two caching objects (different functions, same or different geometry) used alternately: each must answer as if
+    it were alone (no module-level / class-level state shared between instances)"""
+    rng = ctx.rng
+    for _ in range(n):
+        dim = rng.choice([1, 2, 3])
+        sa = rnd_scenario(rng, dim, kind=rng.choice(['smooth', 'multilinear']))
+        sb = dict(sa, fn=rnd_fn(rng, dim, sa['area'], 'smooth'), nbe=not sa['nbe'])
+        if rng.random() < 0.5:
+            sb = dict(sb, res=[r * rng.uniform(0.5, 0.9) for r in sa['res']])
+        pts = sa['points'][:8 if dim < 3 else 4]
+        alone = {}
+        for tag, sc in (('A', sa), ('B', sb)):
+            c = build(sc, Fn(sc['fn']))
+            for p in pts:
+                alone[tag, p] = _status_value(c, p)
+        ca, cb = build(sa, Fn(sa['fn'])), build(sb, Fn(sb['fn']))
+        for p in pts:
+            for tag, c, sc in (('A', ca, sa), ('B', cb, sb)):
+                got = _status_value(c, p)
+                ctx.case(key=('two-inst', dim, tag, f2b(p[0])))
+                if got != alone[tag, p]:
+                    ctx.fail(fail_sig(sc, 'instances-interfere'),
+                             'two caching objects used alternately: object %s at %r gives %r, alone it gives %r' % (tag, p, got, alone[tag, p]),
+                             dict(check='values', scenario=_short(sc), point=p))
+                    return
+        ctx.count('S:two-instances-independent')
+
+
+def _status_value(c, p):
+    try:
+        v = c(*p)
+        return ('val', 'nan' if math.isnan(v) else f2b(v))
+    except np.linalg.LinAlgError:
+        return ('error', None)
+    except ValueError:
+        return ('raise', None)
+    except Exception as e:  # noqa
+        return ('Other:' + type(e).__name__, None)
+
+
+KINDS = ['ArgND', 'ConstantND', 'composed-affine', 'composed-product', 'float', 'int', 'python-callable']
+
+
+def make_kind(kind, dim, k0, k1, ki):
+    import raysect.core.math.function.float as ff
+    names = 'xyz'[:dim]
+    Arg = [ff.Arg1D, ff.Arg2D, ff.Arg3D][dim - 1]
+    Const = [ff.Constant1D, ff.Constant2D, ff.Constant3D][dim - 1]
+    arg = (lambda a: Arg()) if dim == 1 else (lambda a: Arg(a))
+    if kind == 'float':
+        return k0
+    if kind == 'int':
+        return ki
+    if kind == 'ConstantND':
+        return Const(k0)
+    if kind == 'ArgND':
+        return arg(names[-1])
+    if kind == 'composed-affine':
+        return arg(names[0]) * k1 + k0
+    if kind == 'composed-product':
+        return (arg(names[0]) + k0) * (arg(names[-1]) * k1 - 1.0) if dim > 1 else arg('x') * k1 - k0
+    return lambda *a: k0 + k1 * a[0]
+
+
+def kind_point_oracle(ctx, dim, kind, k0, k1, ki, area, res, nbe, bounds, points):
+    """see function_kinds_stream; returns True if a failing input was reported"""
+    F = make_kind(kind, dim, k0, k1, ki)
+    pyf = (lambda *a: float(F)) if isinstance(F, (int, float)) else (lambda *a: F(*a))
+    sc = dict(dim=dim, area=area, res=res, nbe=nbe, bounds=bounds, points=points,
+              fn=dict(dim=dim, c=[0.0] * 3, m=[0.0] * 8, kind='kind:' + kind))
+    rep = dict(check='kinds', kind=kind, dim=dim, k0=k0, k1=k1, ki=ki, area=area, res=res, nbe=nbe, bounds=bounds)
+    try:
+        c = build(sc, F)
+        ref = build(sc, pyf)
+    except Exception as e:  # noqa
+        ctx.fail(fail_sig(sc, 'function-kind:%s:constructor-%s' % (kind, type(e).__name__)),
+                 'wrapped function of kind %s rejected: %s' % (kind, str(e)[:150]), dict(rep, points=[list(q) for q in points]))
+        return True
+    scale = max(abs(pyf(*[area[2 * d + ((e >> d) & 1)] for d in range(dim)])) for e in range(2 ** dim)) + 1.0
+    if bounds is not None:
+        scale = max(scale, 20.0)
+    for p in points:
+        got, want = _status_value(c, p), _status_value(ref, p)
+        cl = classify(sc, p)
+        ctx.case(key=('kind', kind, dim, nbe, f2b(p[0])))
+        why = None
+        sig = ''
+        if cl == 'outside' and not any(math.isnan(x) or math.isinf(x) for x in p):
+            if not nbe and got[0] != 'raise':
+                why = 'outside the area in raise mode: %r instead of ValueError' % (got,)
+            elif nbe and got != ('val', f2b(pyf(*p))):
+                why = 'outside the area in pass-through mode: %r, the function gives %r' % (got, pyf(*p))
+            sig = 'outside-policy:' + ('pass-through' if nbe else 'raise')
+        elif cl == 'inside':
+            if got != want:
+                why = 'inside: %r, the same function behind a Python lambda gives %r' % (got, want)
+            elif got[0] == 'val' and not abs(b2f(got[1]) - pyf(*p)) <= 1e-9 * scale:
+                why = 'inside: value %r, the function gives %r' % (b2f(got[1]), pyf(*p))
+            sig = 'function-kind-changes-result'
+        if why:
+            ctx.fail(fail_sig(sc, sig + ':' + kind),
+                     'wrapped function of kind %s (%s), area %r resolution %r no_boundary_error=%r bounds %r, point %r: %s'
+                     % (kind, F if isinstance(F, (int, float)) else type(F).__name__, area, res, nbe, bounds, p, why),
+                     dict(rep, points=[list(p)]))
+            return True
+    ctx.count('S:function-kind-ok:' + kind)
+    return False
+
+
+def function_kinds_stream(ctx, n):
+    """every kind of object the constructors accept as the wrapped function — plain number, ConstantND, ArgND,
+    composed raysect functions, a cherab function object, a Python callable — through all clauses.  Reference (no
+    model, nothing read from the object under test): the same function hidden behind a Python lambda, and the
+    function itself: inside equal bits to the lambda-wrapped cache and (for these functions, which are linear in each
+    coordinate or constant) equal to the function; outside ValueError in raise mode, exactly f(p) in pass-through mode"""
+    rng = ctx.rng
+    for _ in range(n):
+        dim = rng.choice([1, 2, 3])
+        area, res = [], []
+        for d in range(dim):
+            lo, hi, r = rnd_axis(rng, 3)
+            area += [lo, hi]
+            res.append(r)
+        k0, k1, ki = rng.uniform(-2, 2), rng.uniform(0.5, 2), rng.randint(-3, 7)
+        kind = rng.choice(KINDS)
+        F = make_kind(kind, dim, k0, k1, ki)
+        for nbe in (False, True):
+            bounds = rng.choice([None, (-3.0, 20.0), (5.0, 5.0)])
+            sc = dict(dim=dim, area=area, res=res, nbe=nbe, bounds=bounds, fn=dict(dim=dim, c=[0.0] * 3, m=[0.0] * 8, kind='kind'))
+            pts = rnd_points(rng, sc, n_in={1: 5, 2: 4, 3: 2}[dim])
+            kind_point_oracle(ctx, dim, kind, k0, k1, ki, area, res, nbe, bounds, pts)
+
+
 def s_cached(ctx, sc):
     """the class promises caching: a point inside the area evaluated a second time must not reach the wrapped function
     again, and must give the same value (also with no_boundary_error=True, which only concerns points outside)"""
@@ -1005,12 +1199,12 @@ def _single_point_oracle(ctx, sc, c, fn, p):
 
 
 # ----------------------------------------------------------------------------------------------------------------
-def run_scenario(ctx, drv, sc, nperm, do_k=True):
+def run_scenario(ctx, drv, sc, nperm, do_k=True, orders=None):
     """safety net: whatever the code under test does (wrong shapes, degenerate grids, unexpected exception types), a
     harness exception while processing a scenario is a *result* about that scenario, never an infrastructure failure:
     it is recorded as a broken correspondence stream and the model-free point oracles are run on the scenario"""
     try:
-        _run_scenario(ctx, drv, sc, nperm, do_k)
+        _run_scenario(ctx, drv, sc, nperm, do_k, orders)
     except Exception as e:  # noqa
         import traceback
         ctx.count('scenario-derailed-harness')
@@ -1029,17 +1223,19 @@ def run_scenario(ctx, drv, sc, nperm, do_k=True):
                      dict(check='values', scenario=_short(sc), point=list(sc['points'][0]) if sc.get('points') else []))
 
 
-def _run_scenario(ctx, drv, sc, nperm, do_k=True):
+def _run_scenario(ctx, drv, sc, nperm, do_k=True, orders=None):
     """all histories of one scenario: implementation first (S), then the model against each (K)"""
     rng = ctx.rng
     n = len(sc['points'])
-    orders = [list(range(n))]
-    while len(orders) < nperm:
-        o = list(range(n))
-        rng.shuffle(o)
-        orders.append(o)
-    if rng.random() < 0.5:
-        orders.append(list(reversed(range(n))))
+    explicit = orders is not None
+    if not explicit:
+        orders = [list(range(n))]
+        while len(orders) < nperm:
+            o = list(range(n))
+            rng.shuffle(o)
+            orders.append(o)
+        if rng.random() < 0.5:
+            orders.append(list(reversed(range(n))))
     results = []
     last = None
     for o in orders:
@@ -1058,7 +1254,11 @@ def _run_scenario(ctx, drv, sc, nperm, do_k=True):
         return
     s_history(ctx, sc, results)
     s_outside(ctx, sc, results)
+    s_fresh(ctx, sc, results)
     s_cached(ctx, sc)
+    if explicit:
+        ctx.count('scenario:%dD:fresh-first-evaluation' % sc['dim'])
+        return
     s_values(ctx, sc, last, {1: 6, 2: 4, 3: 1}[sc['dim']], rng)
     s_bounds(ctx, sc, rng)
     ctx.count('scenario:%dD:%s' % (sc['dim'], sc['fn']['kind']))
@@ -1113,6 +1313,10 @@ def run(ctx):
             for _ in range(nsc[dim]):
                 sc = rnd_scenario(ctx.rng, dim)
                 run_scenario(ctx, drv, sc, 5)
+        # fresh caches: first evaluations at special points; two instances; kinds of wrapped function
+        fresh_stream(ctx, drv)
+        two_instance_stream(ctx, ctx.n(10, 200))
+        function_kinds_stream(ctx, ctx.n(40, 800))
         # degenerate areas / resolutions: every mode on every axis of every class
         reps = ctx.n(1, 12)
         for dim in (1, 2, 3):
@@ -1205,6 +1409,10 @@ def _replay_one(ctx, rep):
         else:
             c = build(sc, fn)
             _single_point_oracle(ctx, dict(sc, points=[p]), c, fn, p)
+    elif chk == 'kinds':
+        b = rep['bounds']
+        kind_point_oracle(ctx, rep['dim'], rep['kind'], rep['k0'], rep['k1'], rep['ki'], rep['area'], rep['res'], rep['nbe'],
+                          tuple(b) if b is not None else None, [tuple(q) for q in rep['points']])
     else:
         return False
     ctx.case(key=('replay', chk, json.dumps(rep.get('point', rep.get('v')))))
